@@ -364,7 +364,7 @@ fn run(run: &mut Run) {
     let n = run.tier.pick(100_000, 1_500_000);
     run.explore("random-doubles", n, 32 * 8, &random_case);
     run.explore("random-reals", n, 32 * 9, &random_real_case);
-    run.explore("records", run.tier.pick(3_000, 100_000), 40, &record_case);
+    run.explore("records", run.tier.pick(60_000, 1_000_000), 40, &record_case);
 }
 
 fn case(sub: &str) -> Option<Box<CaseFn<'static>>> {
